@@ -6,7 +6,7 @@
 
 package caskettls
 
-//@ unit make_tls_config props=C06 filter=`caskettls\.MakeTLSConfig$`
+//@ unit make_tls_config frames=on props=C06 filter=`caskettls\.MakeTLSConfig$`
 //@ func (*Config).buildStandardTLSConfig
 //@   modifies Config.tlsConfig, Config.ALPN
 //@ func assertConfigsCompatible
@@ -17,6 +17,7 @@ package caskettls
 //@   ensures result != nil
 
 //@ func MakeTLSConfig
+//@   modifies Config.ALPN, Config.tlsConfig
 //@   requires forall(k, 0, len(configs), configs[k] != nil)
 //@   ensures [no_mixing] (result1 == nil && len(configs) > 0) ==> forall(k, 0, len(configs), configs[k] != nil && configs[k].Enabled == configs[0].Enabled)
 //@   ensures [disabled_gives_nil] (result1 == nil && len(configs) > 0 && !configs[0].Enabled) ==> result0 == nil
@@ -52,7 +53,7 @@ package caskettls
 //@   loop 2 invariant 0 <= #i && #i <= len(c1.CurvePreferences) && forall(k, 0, #i, c1.CurvePreferences[k] == c2.CurvePreferences[k])
 //@   loop 3 invariant 0 <= #i && #i <= len(c1.NextProtos) && forall(k, 0, #i, c1.NextProtos[k] == c2.NextProtos[k])
 
-//@ unit build_tls_config props=C06 filter=`caskettls\.Config\)\.buildStandardTLSConfig$`
+//@ unit build_tls_config frames=on props=C06 filter=`caskettls\.Config\)\.buildStandardTLSConfig$`
 //@ // The tls.Config a handshake is governed by carries the site's own protocol range, client-certificate policy and CA
 //@ // pool (a pool is built for EVERY policy other than "no client cert": request, require, verify-if-given,
 //@ // require-and-verify), server cipher preference, and TLS_FALLBACK_SCSV first in the cipher list.
@@ -66,6 +67,7 @@ package caskettls
 //@ define tc() *tls.Config = c.tlsConfig
 //@ func (*Config).buildStandardTLSConfig
 //@   requires c != nil && c.Manager != nil
+//@   modifies Config.ALPN, Config.tlsConfig, E:string
 //@   ensures [disabled_builds_nothing] !old(c.Enabled) ==> (result == nil && c.tlsConfig == old(c.tlsConfig))
 //@   ensures [own_version_range_and_policy] (result == nil && c.Enabled) ==> (tc() != nil && tc().MinVersion == c.ProtocolMinVersion && tc().MaxVersion == c.ProtocolMaxVersion && tc().ClientAuth == c.ClientAuth && tc().PreferServerCipherSuites == c.PreferServerCipherSuites)
 //@   ensures [client_ca_pool_for_every_client_auth_mode] (result == nil && c.Enabled && c.ClientAuth != 0) ==> tc().ClientCAs != nil
@@ -89,7 +91,7 @@ package caskettls
 //@   ensures [no_manager] (c != nil && (tc() == nil || tc().Manager == nil)) ==> !result
 //@   ensures [conjunction] (c != nil && tc() != nil && tc().Manager != nil) ==> (result == ((!tc().Manual || od()) && !tc().SelfSigned && c.Port() != "80" && tc().ACMEEmail != "off" && (certmagic.SubjectQualifiesForPublicCert(c.Host()) || od())))
 
-//@ unit get_config props=C06 filter=`caskettls\.configGroup\)\.getConfig$`
+//@ unit get_config frames=on props=C06 filter=`caskettls\.configGroup\)\.getConfig$`
 //@ spec nparts(s string, sep string) int
 //@ spec part(s string, sep string, j int) string
 //@ spec cand(host string, k int) string
@@ -106,6 +108,7 @@ package caskettls
 //@ extern (*crypto/tls.Config).Clone
 //@   ensures result != nil
 //@ func (configGroup).getConfig
+//@   modifies E:string, Config.GetCertificate
 //@   requires hello != nil && cg != nil && forallT(k, string, has(cg, k) ==> cg[k] != nil)
 //@   ensures [exact_first] (nm() != "" && has(cg, nm())) ==> result == cg[nm()]
 //@   ensures [least_wildcards] (nm() != "" && !has(cg, nm()) && exists(k, 1, nparts(nm(), ".")+1, has(cg, cand(nm(), k)))) ==> exists(k, 1, nparts(nm(), ".")+1, has(cg, cand(nm(), k)) && result == cg[cand(nm(), k)] && forall(j, 1, k, !has(cg, cand(nm(), j))))
